@@ -103,14 +103,27 @@ def gen_mav(tier, rng):
       xs = rand_xs(rng) if k else rand_xs(rng, size + 3)
       zero = zeros[k % len(zeros)] if k < 2 * len(zeros) else rng.choice(zeros)
       for s in MAVS:
-        yield {"s": s, "size": size, "zero": zero, "xs": xs, "feed": rng.choice(["list", "list", "iter", "stream"]),
-               "tags": ["mav", s, "size=%d" % size, "zero" if zero and zero[0] else "zero0"]}
+        via = MAV_VIA[s][k % len(MAV_VIA[s])]
+        yield {"s": s, "via": via, "size": size, "zero": zero, "xs": xs,
+               "feed": rng.choice(["list", "list", "iter", "stream"]),
+               "tags": ["mav", s, "via=" + via, "size=%d" % size, "zero" if zero and zero[0] else "zero0"]}
+
+
+MAV_VIA = {"deque": ["deque", "default"], "recursive": ["recursive", "feedback"], "fir": ["fir"]}
+ACC_VIA = {"accumulate": ["accumulate", "itertools", "default"], "func": ["func", "pure_python"], "z": ["z"]}
+
+
+def _strategy(sd, via):
+  """the strategy reached through its name, an alias, attribute access or the StrategyDict's default call"""
+  if via == "default":
+    return sd
+  return sd[via] if len(via) % 2 else getattr(sd, via)
 
 
 def run_mav(c):
   import audiolazy
   try:
-    f = audiolazy.maverage[c["s"]](c["size"])
+    f = _strategy(audiolazy.maverage, c.get("via", c["s"]))(c["size"])
     xs = feed(c, Qs(c["xs"]))
     out = f(xs) if c["zero"] is None else f(xs, zero=ExactQ(F(c["zero"])))
     return {"ok": [fr(to_frac(v)) for v in out]}
@@ -183,13 +196,16 @@ def gen_acc(tier, rng):
   for _ in range(60 if tier == "quick" else 1200):
     xs = rand_xs(rng)
     for s in ACCS:
-      yield {"s": s, "xs": xs, "feed": rng.choice(["list", "iter", "stream"]), "tags": ["acc", s, "random"]}
+      via = rng.choice(ACC_VIA[s])
+      yield {"s": s, "via": via, "xs": xs, "feed": rng.choice(["list", "iter", "stream"]),
+             "tags": ["acc", s, "via=" + via, "random"]}
 
 
 def run_acc(c):
   import audiolazy
   try:
-    return {"ok": [fr(to_frac(v)) for v in audiolazy.accumulate[c["s"]](feed(c, Qs(c["xs"])))]}
+    f = _strategy(audiolazy.accumulate, c.get("via", c["s"]))
+    return {"ok": [fr(to_frac(v)) for v in f(feed(c, Qs(c["xs"])))]}
   except Exception as e:
     return {"raise": type(e).__name__}
 
@@ -300,7 +316,8 @@ def run_env(c):
   except Exception as e:
     return {"raise": "Harness" + type(e).__name__, "g": [0, 1], "a1": [0, 1], "direct": []}
   try:
-    out = audiolazy.envelope[c["s"]](xs) if c["cutoff"] is None else audiolazy.envelope[c["s"]](xs, cutoff=cutoff)
+    env = audiolazy.envelope if (c["s"] == "rms" and len(c["xs"]) % 2) else audiolazy.envelope[c["s"]]  # rms = the default call
+    out = env(xs) if c["cutoff"] is None else env(xs, cutoff=cutoff)
     vals = []
     for v in out:
       if isinstance(v, SymSqrt):
@@ -607,8 +624,8 @@ def run_multi(c):
   return extra
 
 
-def lit_multi(c, o):
-  tool, t = c["tool"], c["tool"]["t"]
+def _mu_tool_lit(tool, o):
+  t = tool["t"]
   if t == "mav":
     tl = "(TMav %s %s %s)" % (MAV_COQ[tool["s"]], q(cinv(tool["size"])), L.nat(tool["size"]))
   elif t == "amdf":
@@ -625,6 +642,11 @@ def lit_multi(c, o):
     tl = "(TUw %s %s)" % (q(tool["md"]), q(tool["step"]))
   else:
     tl = "(TAcc %s)" % ACC_COQ[tool["s"]]
+  return tl
+
+
+def lit_multi(c, o):
+  tl = _mu_tool_lit(c["tool"], o)
   streams = o.get("streams") or [{"raise": o.get("raise", "Unknown")}] * len(c["ins"])
   return "(MU %s %s %s)" % (tl, L.lst(["(%s, %s)" % (q(z), qlist(xs)) for z, xs in c["ins"]]),
                             L.lst([res_lit(s, qlist) for s in streams]))
@@ -636,8 +658,74 @@ def nt_multi(c, o):
   return switches >= 3 and all(len(xs) >= 2 for _, xs in c["ins"])
 
 
+# ------------------------------------------------------------------ live sources, pulled one output at a time
+# mode "cell": a generator that, each time it is asked, yields the CURRENT content of a cell (at most len(xs) times);
+# mode "control": a ControlStream (endless) behind a counting generator.  Before pull k the harness assigns xs[k].
+def gen_live(tier, rng):
+  for tool in MU_TOOLS:
+    for mode in ("cell", "control"):
+      for rep in range(2 if tier == "quick" else 12):
+        short = tool["t"] == "env"
+        xs = rand_xs(rng, rng.randrange(2, 5 if short else 9)) if rep else [[3, 1], [-1, 1], [4, 1], [1, 2]]
+        zero = rng.choice([[0, 1], [2, 1], [-1, 3]]) if tool["t"] in ("mav", "amdf") else [0, 1]
+        yield {"tool": tool, "mode": mode, "zero": zero, "xs": xs, "tags": ["live", tool["t"], mode]}
+
+
+def run_live(c):
+  import audiolazy
+  xs = Qs(c["xs"])
+  st, cell, extra = {"reads": 0}, [None], {}
+  try:
+    call = _mu_build(c["tool"])
+    if c["tool"]["t"] == "env":
+      extra["coef"] = _lowpass_coeffs(audiolazy.lowpass(float.fromhex(c["tool"]["cutoff"])))
+    if c["mode"] == "control":
+      cs = audiolazy.ControlStream(ExactQ(0))
+      def src():
+        for v in cs:
+          st["reads"] += 1
+          yield v
+      def assign(v): cs.value = v
+    else:
+      def src():
+        for _ in range(len(xs)):
+          st["reads"] += 1
+          yield cell[0]
+      def assign(v): cell[0] = v
+    out = iter(call(src(), ExactQ(F(c["zero"]))))
+    obs = []
+    for v in xs:
+      assign(v)
+      y = next(out)
+      obs.append([st["reads"], fr(to_frac(y.arg if isinstance(y, SymSqrt) else y))])
+    extra["final"] = None
+    if c["mode"] == "cell":
+      try:
+        next(out)
+        return dict(extra, **{"raise": "ExtraOutput"})
+      except StopIteration:
+        extra["final"] = st["reads"]
+    extra["ok"] = obs
+    return extra
+  except StopIteration:
+    return dict(extra, **{"raise": "StopIteration"})
+  except Exception as e:
+    return dict(extra, **{"raise": type(e).__name__})
+
+
+def lit_live(c, o):
+  f = lambda obs: L.lst(["(%s, %s)" % (L.nat(r), q(v)) for r, v in obs])
+  return "(LV %s %s %s %s %s)" % (_mu_tool_lit(c["tool"], o), q(c["zero"]), qlist(c["xs"]), res_lit(o, f),
+                                   L.option(o.get("final"), L.nat))
+
+
+def nt_live(c, o):
+  return len(c["xs"]) >= 3 and len(set(map(tuple, c["xs"]))) >= 2
+
+
 IMPORTS = "From AL Require Import C20.Model C20.Spec C20.Check."
 FAMILIES = {
+  "live": Family("live", IMPORTS, "lvcase", "corr_live", "holds_live", gen_live, run_live, lit_live, nt_live),
   "multi": Family("multi", IMPORTS, "mucase", "corr_multi", "holds_multi", gen_multi, run_multi, lit_multi, nt_multi),
   "lin": Family("lin", IMPORTS, "lincase", "corr_lin", "holds_lin", gen_lin, run_lin, lit_lin, nt_lin),
   "mav": Family("mav", IMPORTS, "mvcase", "corr_mav", "holds_mav", gen_mav, run_mav, lit_mav, nt_mav),
